@@ -91,6 +91,27 @@ def external_attrs(api):
         'Definition builtin_attrs : list (string * list (string * list (string * string))) :=\n  %s.\n' % clist(rows)
 
 
+def typedef_reads():
+    """every  <expr>.type_def.<gen>.<attr>  attribute chain in the generators' Python code: what is read THROUGH a type reference"""
+    import ast, glob
+    gens = {'cpp', 'java', 'jni', 'objc', 'objcpp', 'cppcli', 'yaml'}
+    rows = set()
+    import pydjinni
+    root = os.path.join(os.path.dirname(pydjinni.__file__), 'generator')
+    for f in sorted(glob.glob(os.path.join(root, '**', '*.py'), recursive=True)):
+        try:
+            tree = ast.parse(open(f).read())
+        except SyntaxError:
+            raise
+        for n in ast.walk(tree):
+            if isinstance(n, ast.Attribute) and isinstance(n.value, ast.Attribute) and n.value.attr in gens and \
+               isinstance(n.value.value, ast.Attribute) and n.value.value.attr == 'type_def':
+                rows.add((os.path.relpath(f, root), n.value.attr, n.attr))
+    out = ['(%s, %s, %s)' % (cstr(a), cstr(b), cstr(c)) for a, b, c in sorted(rows)]
+    return HEADER + '(* file, generator, attribute: reads of the form  X.type_def.<generator>.<attribute>  in generator/**/*.py *)\n' \
+        'Definition typedef_reads_py : list (string * string * string) :=\n  %s.\n' % clist(out)
+
+
 def main(outdir):
     os.makedirs(outdir, exist_ok=True)
     from pydjinni import API
@@ -99,6 +120,7 @@ def main(outdir):
     write_if_changed(os.path.join(outdir, 'ReturnCodes.v'), return_codes())
     write_if_changed(os.path.join(outdir, 'Builtins.v'), builtins(api))
     write_if_changed(os.path.join(outdir, 'ExternalTypes.v'), external_attrs(api))
+    write_if_changed(os.path.join(outdir, 'TypeDefReads.v'), typedef_reads())
     print('tables ok')
 
 
@@ -107,7 +129,7 @@ if __name__ == '__main__':
         main(sys.argv[1])
     except Exception:
         # fail closed: remove outputs so everything that depends on them stops building
-        for f in ('TargetTable.v', 'ReturnCodes.v', 'Builtins.v', 'ExternalTypes.v'):
+        for f in ('TargetTable.v', 'ReturnCodes.v', 'Builtins.v', 'ExternalTypes.v', 'TypeDefReads.v'):
             p = os.path.join(sys.argv[1], f)
             if os.path.exists(p):
                 os.unlink(p)
